@@ -145,6 +145,8 @@ def check(case):
             got = read_rows(case, data, expanded)
         except Exception as ex:
             return exc_sig('reader-raises:' + form, ex), f'IpmParamReader raised {ex!r} on a {form} file ({case["codec"]}, blocked={case["blocked"]})'
+        # the statement names the entries each row must carry; further keys in a row are not forbidden
+        got = [{k: r[k] for k in e if k in r} if isinstance(r, dict) else r for r, e in zip(got, expected)] + got[len(expected):]
         if got != expected:
             return 'rows-differ:' + form + ':' + _diff_kind(expected, got), (f'{form} file, table {case["wanted"]} ({case["codec"]}, blocked={case["blocked"]}): '
                                                                              + _diff(expected, got))
